@@ -36,6 +36,7 @@ type replicator struct {
 	maxLagTime   time.Duration
 	lastCaughtUp time.Time
 	lastSeen     time.Time
+	lastOffset   int64 // latest log offset the replica reported
 	requests     chan replicationRequest
 	mu           sync.RWMutex
 	leader       string
@@ -53,6 +54,7 @@ func newReplicator(epoch uint64, replica string, p *partition) *replicator {
 		requests:   make(chan replicationRequest, 1),
 		maxLagTime: p.srv.config.Clustering.ReplicaMaxLagTime,
 		leader:     p.srv.config.Clustering.ServerID,
+		lastOffset: -1,
 	}
 }
 
@@ -84,6 +86,7 @@ func (r *replicator) start(stop <-chan struct{}) {
 
 		r.mu.Lock()
 		r.lastSeen = req.received
+		r.lastOffset = req.Offset
 		r.mu.Unlock()
 
 		var (
@@ -166,7 +169,12 @@ func (r *replicator) request(req replicationRequest) {
 // tick is a long-running call that checks to see if the follower hasn't sent
 // any replication requests or hasn't consumed up to the leader's log end
 // offset for the lag-time duration. If this is the case, the follower is
-// removed from the ISR until it catches back up.
+// removed from the ISR until it catches back up. Having been caught up within
+// the lag time is not enough to rejoin the ISR since the leader may have
+// committed messages without the follower in the meantime. The follower must
+// also have reported a log end offset at or past the HW, i.e. it must hold
+// every committed message, as it becomes eligible for leader election once it
+// is in the ISR.
 func (r *replicator) tick(stop <-chan struct{}) {
 	timer := time.NewTimer(r.maxLagTime)
 	defer timer.Stop()
@@ -181,6 +189,7 @@ func (r *replicator) tick(stop <-chan struct{}) {
 			now                 = time.Now()
 			lastSeenElapsed     = now.Sub(r.lastSeen)
 			lastCaughtUpElapsed = now.Sub(r.lastCaughtUp)
+			lastOffset          = r.lastOffset
 		)
 		r.mu.RUnlock()
 		outOfSync := lastSeenElapsed > r.maxLagTime || lastCaughtUpElapsed > r.maxLagTime
@@ -192,7 +201,8 @@ func (r *replicator) tick(stop <-chan struct{}) {
 				r.replica, r.partition, lastSeenElapsed, lastCaughtUpElapsed)
 
 			r.shrinkISR()
-		} else if !outOfSync && !r.partition.inISR(r.replica) {
+		} else if !outOfSync && !r.partition.inISR(r.replica) &&
+			lastOffset >= r.partition.log.HighWatermark() {
 			// Add replica back into ISR.
 			r.partition.srv.logger.Infof("Replica %s for partition %s caught back up with leader, "+
 				"rejoining ISR", r.replica, r.partition)
